@@ -71,6 +71,8 @@ class Scenario:
         self.tables = kw.get("tables", "random")          # "random" | "spec:scalar" | "spec:multi" (IncExplainer.tla)
         self.out_scale = kw.get("out_scale", 1)           # magnitude of the model outputs (exact factor)
         self.loss_scale = kw.get("loss_scale", 1)         # magnitude of the loss values (exact factor)
+        self.wrap = kw.get("wrap", None)                  # None | "sklearn": the model function is a library Wrapper
+        self.prefill = kw.get("prefill", 0)               # observations already in a user-supplied storage (warm start)
         self.default_value = kw.get("default_value", None)   # DefaultImputer: one value for all features (None: (i+1)/2)
         self.companion = kw.get("companion", False)       # a second live explainer (own parts) is driven in between
 
@@ -229,7 +231,19 @@ def build(sc):
                            "predtypes": sorted({type(pv).__name__ for pv in y_pred.values()})})
         return val
 
+    plain_model = model
+    if sc.wrap == "sklearn":
+        # the model function handed to the library is a SklearnWrapper around an array-valued prediction function
+        from ixai.utils.wrappers import SklearnWrapper
+
+        def predict(arr):
+            a = np.asarray(arr, dtype=float)
+            return np.array([plain_model({nm: float(a[r, i]) for i, nm in enumerate(names)})["output"] for r in range(a.shape[0])])
+        model = SklearnWrapper(predict, feature_names=list(names))
     storage = make_storage(sc.storage, sc.store_targets)
+    if storage is not None:
+        for k in range(sc.prefill):       # a storage that was filled before the explainer is built (shared / warm-started)
+            storage.update({nm: conv(F(k + i, 2)) for i, nm in enumerate(names)}, k % 3)
     imputer = None
     if sc.imputer in ("joint", "product"):
         imputer = MarginalImputer(model, sc.imputer, storage)
@@ -617,6 +631,7 @@ def random_scenario(rng, cls=None, quickness=1, **force):
         upd = rng.random() < 0.9 or i == 0
         stream.append((xs, y, n_over, upd))
     kw = dict(cls=cls, d=d, names=names, n_inner=n_inner, dynamic=dynamic, alpha=alpha, companion=rng.random() < 0.3,
+              prefill=(rng.choice([0, 0, 0, 2, 5]) if storage is not None else 0),
               out_scale=rng.choice([1, 1, 1, F(1, 10 ** 10), F(1, 10 ** 6), 10 ** 7]),
               loss_scale=rng.choice([1, 1, 1, F(1, 10 ** 9), 10 ** 8]),
               bigger=(cls == "sage" and rng.random() < 0.3), storage=storage,
